@@ -288,6 +288,14 @@ func (p *balloons) AllocateResources(c cache.Container) error {
 	// run on any CPUs.
 	if bln.AvailMilliCpus() < max(1, reqMilliCpus) {
 		if err := p.resizeBalloon(bln, max(1, reqMilliCpus)); err != nil {
+			if bln.ContainerCount() == 0 {
+				// Do not leave behind an empty balloon that was
+				// created for this container.
+				if derr := p.resizeBalloon(bln, 0); derr != nil {
+					log.Warnf("failed to deflate balloon %s: %v", bln.PrettyName(), derr)
+				}
+				p.freeBalloon(bln)
+			}
 			return balloonsError("resizing balloon %s failed: %w", bln.PrettyName(), err)
 		}
 	}
